@@ -60,7 +60,9 @@ def oracleMeanCI {F : Type} [FloatLike F] (conf : Confidence Float) (xs : List F
     let hi := mean + hw
     -- the one-pass variance (Σx² − x̄Σx)/(n−1) carries an absolute error of a few u·Σx²/(n−1)
     -- (its conditioning); the standard deviation inherits min(ε/s, √ε)
-    let epsV := 16.0 * FloatLike.u F * e.sumSqF / (nn - 1.0)
+    -- constants from the theorems C01R.stdDev_error / interval_error (49 u Y for the deviation,
+    -- 15 u mean|x| + 7 u halfwidth for the rest), rounded up
+    let epsV := 50.0 * FloatLike.u F * e.sumSqF / (nn - 1.0)
     let sdTol := if sd > 0.0 && epsV / sd < epsV.sqrt then epsV / sd else epsV.sqrt
     let tol := 16.0 * FloatLike.u F * (e.meanAbs + absF hw) + absF c * sdTol / nn.sqrt + Float.scaleB 1.0 (-1060)
     let complaints := impl.foldl (fun (acc : List String × Nat) (g : List String) =>
